@@ -41,6 +41,8 @@ def gen_E(rng, tier, langs=LANGS):
                 ents.append(("runs", e))
             for _ in range(10 if q else 200):
                 ents.append(("random", rng.randbytes(el)))
+            for e in gens.zero_checksum_entropies(rng, el, (0, None, 1)):
+                ents.append(("cs-extreme", e))
             if not q or el in (16, 28, 32):
                 for e in gens.extreme_entropies(rng, lang, el):
                     ents.append(("extreme-words", e))
@@ -95,6 +97,10 @@ def C01(tier, seed, st):
     def e_ops(lang):
         return ["E %s %s" % (lang, hx(e)) for el in ENT_LENS for e in gens.diagonal_entropies(el // 4 * 3, 3 if q else 40, start=rng.randrange(2048))]
     run_Q(res, warm_E_histories(rng, LANGS, e_ops), judge_op_generator)
+    # generation after FAILED draws, and calls of different sizes after one another, in one process
+    run_Q(res, failed_draw_histories(rng, q) + resize_histories(rng, q), judge_op_draw)
+    # the same calls made by several goroutines at once
+    concurrent_stream(res, rng, lambda: "E %s %s" % (rng.choice(LANGS), hx(rng.randbytes(rng.choice(ENT_LENS)))), programs=3 if q else 20)
     return res
 
 
@@ -160,6 +166,9 @@ def C05(tier, seed, st):
     def e_ops(lang):
         return ["E %s %s" % (lang, hx(rng.randbytes(rng.choice(ENT_LENS)))) for _ in range(6 if q else 40)]
     run_Q(res, warm_E_histories(rng, LANGS, e_ops), judge_op_generator)
+    run_Q(res, failed_draw_histories(rng, q), judge_op_draw)
+    lang5 = rng.choice(LANGS)
+    concurrent_stream(res, rng, lambda: "E %s %s" % (lang5, hx(rng.randbytes(rng.choice(ENT_LENS)))), programs=3 if q else 20)
     return res
 
 
@@ -194,6 +203,18 @@ def C09(tier, seed, st):
         lang = rng.choice(LANGS + UNSUPPORTED[:3])
         lines.append("N %d %s %s" % (c, lang, plenty))
         expect.append("okN" if c in WORD_COUNTS else "err wordlen used=0 reads=0")
+    # working sources of unusual but legal shapes: the last bytes together with io.EOF / another error, one byte at a
+    # time, empty reads first, long runs of identical bytes - an accepted count must still succeed
+    for c in WORD_COUNTS:
+        need = c + c // 3
+        for lang in rng.sample(LANGS, 2):
+            d = rng.randbytes(need)
+            shapes = [[(d, e)] for e in gens.ERR_KINDS] + [[(d[:need - 1], None), (d[need - 1:], e)] for e in gens.ERR_KINDS]
+            shapes += [[(d[i:i + 1], None) for i in range(need)], [(b"", None)] * 3 + [(d, None)], [(d[:5], None), (d[5:], "eof")]]
+            shapes += [[(sd[:need], None)] for sd in gens.stuck_sources(rng, need)]
+            for sh in shapes:
+                lines.append("N %d %s %s" % (c, lang, gens.script_str(sh)))
+                expect.append("okN")
     impl = common.run_impl(lines)
     model = common.run_model(lines, "model")
     for ln, ex, i, m in zip(lines, expect, impl, model):
@@ -229,6 +250,10 @@ def C09(tier, seed, st):
                 return "an accepted word count with a working source must succeed, also when repeated: " + r[:80]
         return judge_op_generator(op, r, sp)
     run_Q(res, repeat_histories(rng, q), judge_rep)
+    # accepted sizes after one another (every ordered pair) and after failed draws
+    run_Q(res, resize_histories(rng, q) + failed_draw_histories(rng, q), judge_op_draw)
+    concurrent_stream(res, rng, lambda: rng.choice(["N %d %s -" % (rng.choice(WORD_COUNTS + [11, 25]), rng.choice(LANGS)),
+                                                    "E %s %s" % (rng.choice(LANGS), hx(rng.randbytes(rng.choice(ENT_LENS + [15, 33]))))]), programs=2 if q else 12)
     res.sample({"case": lines[17], "impl": impl[17], "expected": expect[17]})
     res.sample({"case": lines[-1], "impl": impl[-1], "expected": expect[-1]})
     res.streams["E"] = sum(1 for l in lines if l[0] == "E")
@@ -296,6 +321,8 @@ def C16(tier, seed, st):
     res.sample({"case": "L -1", "impl": impl[lines.index("L -1")]})
     res.streams["L"] = len(lines)
     res.streams["I"] = len(il)
+    # String() called by several goroutines at once, supported and unsupported values mixed
+    concurrent_stream(res, rng, lambda: "L %s" % rng.choice(LANGS + [str(rng.randrange(-50, 50)), str(rng.randrange(-2 ** 63, 2 ** 63))]), programs=3 if q else 20, ops=8)
     return res
 
 
@@ -422,6 +449,8 @@ def valid_items(rng, tier, langs=LANGS):
             for e in gens.valid_entropies(rng, el, q):
                 idx = gens.indices_of_entropy(e)
                 items.append(("valid", lang, gens.sentence(lang, idx), "accept"))
+            for e in gens.zero_checksum_entropies(rng, el, (0, None, 1, 0)):
+                items.append(("valid-cs-extreme", lang, gens.sentence(lang, gens.indices_of_entropy(e)), "accept"))
             e = rng.randbytes(el)
             for sp in gens.ALT_SEPS:
                 items.append(("valid-altsep", lang, gens.sentence(lang, gens.indices_of_entropy(e), sp), "accept"))
@@ -463,7 +492,7 @@ def C02(tier, seed, st):
             return "a valid mnemonic was rejected: " + icls
         if tag == "generated" and not (scls == "nil" and sacc == "accept"):
             return "a mnemonic returned by the generator is not a valid sentence by the specification (%s)" % scls
-        if tag in ("valid", "valid-altsep", "valid-extreme", "word") and not (scls == "nil" and sacc == "accept"):
+        if tag in ("valid", "valid-altsep", "valid-extreme", "valid-cs-extreme", "word") and not (scls == "nil" and sacc == "accept"):
             return "generator self-check: the specification does not classify this constructed sentence as valid (%s)" % scls
         return None
     run_C(res, items, judge)
@@ -488,6 +517,14 @@ def C02(tier, seed, st):
     res.streams["E+N"] = len(gl)
     # valid sentences validated AFTER failing validations (and after each other) in one process
     run_Q(res, validator_pair_histories(rng, rng.sample(LANGS, 2) if tier == "quick" else LANGS, tier == "quick"), judge_op_validator)
+    # the same sentence under another language first; valid sentences of different sizes after one another; the same
+    # respelled sentence as the first calls of a process
+    qq = tier == "quick"
+    run_Q(res, cross_language_histories(rng, qq) + resize_histories(rng, qq) + respelled_repeat_histories(rng, qq), judge_op_draw)
+    def vop():
+        l = rng.choice(LANGS)
+        return "C %s %s" % (l, hx(gens.encode(l, rng.randbytes(rng.choice(ENT_LENS)))))
+    concurrent_stream(res, rng, vop, programs=3 if qq else 20)
     return res
 
 
@@ -657,6 +694,140 @@ def judge_op_validator(op, r, sp):
     return judge_common("hist", None, icls, iv, sacc, scls, xs, f[1])
 
 
+def script_items(sc):
+    """parse a script string back into (data, error kind or None) items"""
+    if sc == "-":
+        return []
+    out = []
+    for x in sc.split(","):
+        d, e = x.split(":")
+        e = e.split("@")[0]
+        out.append((unhx(d), None if e == "-" else e))
+    return out
+
+
+def judge_op_draw(op, r, sp):
+    """N ops inside a history, judged from their own script alone (C06/C09): the encoding of the first 4n/3 delivered
+    bytes, or an error when fewer are delivered / the count is not accepted.  Other ops as judge_op_generator."""
+    f = op.split()
+    if f[0] == "N" and f[2] in LANGS:
+        n = int(f[1])
+        head = r.split(" used=")[0]
+        if n not in WORD_COUNTS:
+            return None if head == "err wordlen" else "a word count outside 12,15,18,21,24 must give ErrWordLen: " + head[:80]
+        d, _ = gens.delivered(script_items(f[3]))
+        need = n + n // 3
+        if len(d) >= need:
+            want = "ok " + hx(gens.encode(f[2], d[:need]))
+            if head != want:
+                return "NewMnemonic inside a history must return the encoding of the first 4n/3 bytes its own source delivers (expected %s...): %s" % (want[:40], head[:80])
+        elif not head.startswith("err ") or head == "err nil":
+            return "the source delivered fewer than 4n/3 bytes: NewMnemonic must fail closed, also inside a history: " + head[:80]
+        return None
+    return judge_op_generator(op, r, sp)
+
+
+def failed_draw_histories(rng, quick):
+    """a NewMnemonic call whose source fails after k > 0 bytes (or after 0), FOLLOWED by other calls in the same
+    process: generation from caller entropy, further draws of every size, validation.  Anything a failed call leaves
+    behind (a dirty pooled hash state or buffer, parked bytes) shows up in the calls that follow."""
+    hist = []
+    for lang in (rng.sample(LANGS, 3) if quick else LANGS):
+        for n in WORD_COUNTS:
+            need = n + n // 3
+            for k in sorted(set([1, need - 1, rng.randrange(1, need), 0] if quick else range(need))):
+                data = rng.randbytes(need)
+                fail = "N %d %s %s" % (n, lang, gens.script_str([(data[:k], rng.choice(gens.ERR_KINDS))]))
+                n2 = rng.choice(WORD_COUNTS)
+                e1, e2 = rng.randbytes(rng.choice(ENT_LENS)), rng.randbytes(rng.choice(ENT_LENS))
+                okdraw = lambda m: "N %d %s %s" % (m, lang, gens.script_str([(rng.randbytes(m + m // 3), None)]))
+                sent = hx(gens.encode(lang, rng.randbytes(16), b" "))
+                hist.append([fail, "E %s %s" % (lang, hx(e1)), "E %s %s" % (lang, hx(e2))])
+                hist.append([fail, okdraw(n2), okdraw(12), okdraw(24), "E %s %s" % (lang, hx(e1))])
+                hist.append([fail, fail, "C %s %s" % (lang, sent), okdraw(n), "E %s %s" % (lang, hx(e2))])
+                # a failed LONG draw followed by a draw from a source that fails at once / delivers too little
+                dead = "N 12 %s %s" % (lang, gens.script_str([(b"", "eof")]))
+                short = "N %d %s %s" % (n2, lang, gens.script_str([(rng.randbytes(rng.randrange(0, 4)), "x1")]))
+                hist.append([fail, dead, short, okdraw(n2)])
+    return hist
+
+
+def resize_histories(rng, quick, langs=None):
+    """calls of DIFFERENT sizes one after another in one process: every ordered pair and triple of word counts for
+    draws, encodings and validations (a recycled buffer that is too short or too long for the next call)"""
+    hist = []
+    for lang in (langs or (rng.sample(LANGS, 2) if quick else LANGS)):
+        draw = lambda m: "N %d %s %s" % (m, lang, gens.script_str([(rng.randbytes(m + m // 3), None)]))
+        enc = lambda m: "E %s %s" % (lang, hx(rng.randbytes(m + m // 3)))
+        val = lambda m: "C %s %s" % (lang, hx(gens.encode(lang, bytes(rng.choice((0, 0, 1))) + rng.randbytes(m + m // 3 - 1), b" ")))
+        triples = [(a, b, c) for a in WORD_COUNTS for b in WORD_COUNTS for c in WORD_COUNTS if not a == b == c]
+        if quick:
+            triples = [(12, 24, 12), (24, 12, 24), (24, 12, 15), (12, 15, 24), (21, 12, 18)] + rng.sample(triples, 20)
+        for mk in (draw, enc, val):
+            for a, b, c in triples:
+                hist.append([mk(a), mk(b), mk(c), mk(a)])
+        for _ in range(6 if quick else 60):
+            hist.append([rng.choice((draw, enc, val))(rng.choice(WORD_COUNTS)) for _ in range(rng.randrange(4, 10))])
+    return hist
+
+
+def cross_language_histories(rng, quick):
+    """the SAME sentence asked under one language and then under another (every ordered pair of languages, and
+    unsupported values before supported ones): a verdict remembered under the wrong key shows up"""
+    hist = []
+    sents = {l: hx(gens.encode(l, rng.randbytes(rng.choice(ENT_LENS)), b" ")) for l in LANGS}
+    for a in LANGS:
+        for b in LANGS:
+            if a != b:
+                hist.append(["C %s %s" % (a, sents[b]), "C %s %s" % (b, sents[b]), "C %s %s" % (a, sents[b]), "C %s %s" % (a, sents[a])])
+    for b in LANGS:
+        for u in (rng.sample(range(10, 30), 3) if quick else range(10, 30)):
+            hist.append(["C %d %s" % (u, sents[b]), "C %s %s" % (b, sents[b])])
+            hist.append(["C %s %s" % (b, sents[b]), "C %d %s" % (u, sents[b]), "C %d %s" % (-u, sents[b])])
+    return hist
+
+
+def respelled_repeat_histories(rng, quick):
+    """the same NON-ASCII spelling of a valid sentence validated several times in a row as the first calls of a
+    process (ASCII lists included): the first call must not differ from the later ones"""
+    hist = []
+    for lang in LANGS:
+        for n in (rng.sample(WORD_COUNTS, 2) if quick else WORD_COUNTS):
+            idx = gens.indices_of_entropy(rng.randbytes(n // 3 * 4))
+            base = gens.sentence(lang, idx, b" ")
+            vs = [gens.sentence(lang, idx, rng.choice(gens.EQUIV_SEPS).encode()), b" ".join(gens.fullwidth(w) for w in base.split(b" "))]
+            v1 = gens.respell_one_char(rng, base, "random")
+            if v1:
+                vs.append(v1)
+            for v in vs:
+                hist.append(["C %s %s" % (lang, hx(v))] * 3 + ["C %s %s" % (lang, hx(base)), "C %s %s" % (lang, hx(v))])
+    return hist
+
+
+def near_word_items(rng, tier, langs=LANGS):
+    """otherwise valid sentences in which ONE word is replaced by a token that is almost that word: an invisible /
+    default-ignorable code point added (U+034F, ZWJ, ...), a character moved to another plane (same low 16 bits), a single
+    code point at a block boundary (U+9FA6.., U+FFFF, U+10000 ...).  None of them is a list word."""
+    q = tier == "quick"
+    items = []
+    for lang in langs:
+        t = gens.table(lang)
+        for n in (rng.sample(WORD_COUNTS, 2) if q else WORD_COUNTS):
+            idx = gens.indices_of_entropy(rng.randbytes(n // 3 * 4))
+            ws = [t[i] for i in idx]
+            for p_ in sorted(set([0, n - 1, rng.randrange(n)])):
+                toks = [("invisible", v) for v in gens.invisible_variants(rng, ws[p_])] + [("plane-twin", v) for v in gens.plane_twins(ws[p_])]
+                bc = gens.BOUNDARY_CPS if (not q or lang.startswith("Chinese")) else rng.sample(gens.BOUNDARY_CPS, 12)
+                toks += [("boundary-cp", chr(c).encode()) for c in bc if not 0xD800 <= c <= 0xDFFF]
+                for tag, tok in toks:
+                    if tok in t:
+                        continue
+                    w2 = list(ws)
+                    w2[p_] = tok
+                    items.append((tag, lang, b" ".join(w2), None))
+    return items
+
+
 def C03(tier, seed, st):
     res = Result("C03")
     rng = random.Random(seed)
@@ -679,6 +850,7 @@ def C03(tier, seed, st):
                         i2[p] = w
                         items.append(("subst", lang, gens.sentence(lang, i2, b" "), None))
     items += affix_items(rng, tier)
+    items += near_word_items(rng, tier)
     # unsupported Language values never accept
     for u in UNSUPPORTED:
         idx = gens.indices_of_entropy(rng.randbytes(16))
@@ -692,6 +864,7 @@ def C03(tier, seed, st):
             others = rng.sample([l for l in LANGS if l != lang] + UNSUPPORTED[:3], 4)
             hist.append(["C %s %s" % (lang, sent)] + ["C %s %s" % (o, sent) for o in others] + ["C %s %s" % (lang, sent)])
     hist += validator_pair_histories(rng, rng.sample(LANGS, 2) if q else LANGS, q)
+    hist += cross_language_histories(rng, q)
     run_Q(res, hist, judge_op_validator)
     # membership by volume: millions of pseudo-random letter tokens in front of eleven list words; every token that
     # is not a list word must be reported as the unknown word (a lookup by hash, prefix or anything looser than
@@ -751,6 +924,12 @@ def C03(tier, seed, st):
             res.corr_break(stream="C", case="sweep %s %d" % (lang, n), impl=len(acc_i), model=len(acc_m), why="model and implementation differ")
     res.streams["C"] += len(lines)
     res.sample({"sweep": "all 2048 last words", "prefix": prefixes[0][2], "lang": prefixes[0][0], "accepted": 2 ** (11 - prefixes[0][1] // 3)})
+    # validation calls made by several goroutines at once (valid, wrong checksum, unknown word, wrong count)
+    def _vop():
+        l = rng.choice(LANGS)
+        tag, b = rng.choice(gens.validator_inputs(rng, l, n=rng.choice(WORD_COUNTS)))
+        return "C %s %s" % (l, hx(b))
+    concurrent_stream(res, rng, _vop, programs=3 if tier == "quick" else 20)
     return res
 
 
@@ -788,6 +967,11 @@ def C15(tier, seed, st):
                 # count and words wrong: the count wins
                 items.append(("count-and-unknown", lang, b" ".join([b"qq"] * (n + 1)), None))
     items += affix_items(rng, tier)
+    items += near_word_items(rng, tier)
+    for lang in LANGS:
+        for n in (rng.sample(WORD_COUNTS, 2) if q else WORD_COUNTS):
+            for tag, b in gens.damaged(rng, lang, gens.indices_of_entropy(rng.randbytes(n // 3 * 4))):
+                items.append((tag, lang, b, None))
     # unknown tokens that look like formatting directives
     for lang in LANGS:
         idx = gens.indices_of_entropy(rng.randbytes(16))
@@ -799,7 +983,13 @@ def C15(tier, seed, st):
             items.append(("unknown-percent", lang, b" ".join(w2), None))
     run_C(res, items, lambda *a: judge_common(*a))
     # the same kinds of sentences one after another in one process: the class must not depend on what came before
-    run_Q(res, validator_pair_histories(rng, rng.sample(LANGS, 2) if q else LANGS, q), judge_op_validator)
+    run_Q(res, validator_pair_histories(rng, rng.sample(LANGS, 2) if q else LANGS, q) + cross_language_histories(rng, q), judge_op_validator)
+    # validation calls made by several goroutines at once (valid, wrong checksum, unknown word, wrong count)
+    def _vop():
+        l = rng.choice(LANGS)
+        tag, b = rng.choice(gens.validator_inputs(rng, l, n=rng.choice(WORD_COUNTS)))
+        return "C %s %s" % (l, hx(b))
+    concurrent_stream(res, rng, _vop, programs=3 if tier == "quick" else 20)
     return res
 
 
@@ -828,6 +1018,23 @@ def C10(tier, seed, st):
                 var[pos] = v
                 sepv = rng.choice(gens.EQUIV_SEPS).encode()
                 pairs.append(("word-" + form, lang, b" ".join(base), sepv.join(var)))
+        # ONE substring of a word written as a single compatibility code point (ideograph twins and radicals, circled /
+        # squared / parenthesised letters, roman numerals, ligatures, mathematical alphabets ...), nothing else changed:
+        # with plain U+0020 separators and with an equivalent separator
+        for w in (range(rng.randrange(8), 2048, 8) if q else range(2048)):
+            cr = gens.compat_respellings(rng, t[w], 3 if q else 12)
+            if not cr:
+                continue
+            n = WORD_COUNTS[w % 5]
+            pos = rng.choice((0, n - 1, (w * 5) % n))
+            idx = gens.sentence_with_word(rng, lang, n, pos, w)
+            base = [t[i] for i in idx]
+            for cat, v in cr:
+                var = list(base)
+                var[pos] = v
+                pairs.append(("compat-" + cat, lang, b" ".join(base), b" ".join(var)))
+                if rng.random() < 0.3:
+                    pairs.append(("compat-" + cat, lang, b" ".join(base), rng.choice(gens.EQUIV_SEPS).encode().join(var)))
         # whole sentence in another form / separator
         for n in WORD_COUNTS:
             idx = gens.indices_of_entropy(rng.randbytes(n // 3 * 4))
@@ -894,6 +1101,14 @@ def C10(tier, seed, st):
     res.sample({"pair": [lines[1][:200], lines[0][:200]], "impl": [impl[1], impl[0]]})
     res.streams["C"] = len(lines)
     res.streams["K"] = len(kl)
+    # the same respelled sentence as the FIRST calls of a process, several times in a row
+    run_Q(res, respelled_repeat_histories(rng, q), judge_op_validator)
+    # respelled sentences validated by several goroutines at once
+    def _rop():
+        l = rng.choice(LANGS)
+        idx = gens.indices_of_entropy(rng.randbytes(rng.choice(ENT_LENS)))
+        return "C %s %s" % (l, hx(gens.sentence(l, idx, rng.choice(gens.EQUIV_SEPS).encode())))
+    concurrent_stream(res, rng, _rop, programs=3 if q else 20)
     return res
 
 
@@ -943,6 +1158,10 @@ def C06(tier, seed, st):
             add(n, lang, [(data[i:i + 1], None) for i in range(need)], "bytewise")
             add(n, lang, [(data, None)], "overlong")
             add(n, lang, [(b"", None), (b"", None), (data[:need], None)], "empty-reads-first")
+            # a healthy source may deliver long runs of identical bytes, counters, constants
+            for sd in gens.stuck_sources(rng, need):
+                add(n, lang, [(sd, None)], "runs-of-identical-bytes")
+                add(n, lang, [(sd[:need], "eof")], "runs-of-identical-bytes")
         # a source that blocks for seconds before delivering (a blocked entropy pool): still not a failure
         lang = rng.choice(LANGS)
         data = rng.randbytes(need)
@@ -992,6 +1211,12 @@ def C06(tier, seed, st):
     res.sample({"case": lines[-1][:200], "impl": impl[-1][:200]})
     res.streams["N"] = len(lines)
     res.streams["R"] = len(rl)
+    # draws AFTER failed draws in one process: each is judged from its own script alone
+    run_Q(res, failed_draw_histories(rng, q), judge_op_draw)
+    # concurrent draws from the default source after failed draws (prelude with a scripted failing source)
+    drawn = concurrent_stream(res, rng, lambda: "N %d %s -" % (rng.choice(WORD_COUNTS), rng.choice(LANGS)), programs=2 if q else 12,
+                              pre=lambda: ["N %d English %s" % (n_, gens.script_str([(rng.randbytes(rng.randrange(1, n_)), rng.choice(gens.ERR_KINDS))])) for n_ in rng.sample(WORD_COUNTS, 2)])
+    check_drawn(res, drawn)
     return res
 
 
@@ -1062,6 +1287,7 @@ def C13(tier, seed, st):
     hist += validator_pair_histories(rng, rng.sample(LANGS, 2) if q else LANGS, q)
     hist += seed_histories(rng, q)
     hist += repeat_histories(rng, q)
+    hist += failed_draw_histories(rng, q) + resize_histories(rng, q) + cross_language_histories(rng, q) + respelled_repeat_histories(rng, q)
     # generation after validation
     hist += warm_E_histories(rng, LANGS, lambda lang: ["E %s %s" % (lang, hx(rng.randbytes(rng.choice(ENT_LENS)))) for _ in range(4)])
     # random histories
@@ -1075,10 +1301,12 @@ def C13(tier, seed, st):
         a = alone[op].split(" BUFFERS-CHANGED")[0]
         if r != a:
             return "result depends on the history: alone it returns `%s`" % a[:160]
-        return judge_op_validator(op, r, sp)
+        return judge_op_draw(op, r, sp)
     run_Q(res, hist, judge)
     res.streams["alone"] = len(uniq)
     res.notes.append("E ops in a history keep the caller's entropy slice and every returned seed/string alive and re-inspect them after the last call; sub-slices of one backing array are passed as separate arguments")
+    # the same kinds of calls from several goroutines at once (results must be those of the calls run alone)
+    concurrent_stream(res, rng, lambda: random_op(rng, LANGS), programs=3 if q else 20)
     return res
 
 
@@ -1121,6 +1349,13 @@ def C14(tier, seed, st):
             ws = [b"abandon"] * 11 + [w]
             lines.append("C %s %s" % (lang, hx(b" ".join(ws))))
         lines.append("S %s %s" % (hx(w), hx(w)))
+    for tag, lang, b, _ in near_word_items(rng, tier):
+        lines.append("C %s %s" % (lang, hx(b)))
+    for lang in LANGS:
+        ws = [gens.table(lang)[i] for i in gens.indices_of_entropy(rng.randbytes(16))]
+        for w in weird:
+            lines.append("C %s %s" % (lang, hx(b" ".join(ws[:11] + [w]))))
+            lines.append("C %s %s" % (lang, hx(b" ".join([w] + ws[1:]))))
     for _ in range(150 if q else 3000):
         n = rng.choice((1, 2, 3, 7, 30, 200))
         b = rng.randbytes(n)
@@ -1138,6 +1373,10 @@ def C14(tier, seed, st):
     impl = common.run_impl(lines)
     model = common.run_model(lines, "model")
     bi = common.run_impl(big, shards=4)
+    # calls of different sizes after one another, draws after failed draws: no panic in any history
+    def judge_panic(op, r, sp):
+        return "an exported function panicked or did not return inside a history: " + r[:120] if ("panic" in r or "hang" in r) else None
+    run_Q(res, resize_histories(rng, q) + failed_draw_histories(rng, q), judge_panic)
     for ln, i in zip(lines + big, impl + bi):
         res.evaluations += 1
         f = ln.split()
@@ -1165,6 +1404,12 @@ def C14(tier, seed, st):
     res.sample({"huge": "%d-byte inputs" % (len(big[0]) // 2), "impl": bi[0][:80]})
     res.streams["malformed"] = len(lines)
     res.streams["huge"] = len(big)
+    # validation calls made by several goroutines at once (valid, wrong checksum, unknown word, wrong count)
+    def _vop():
+        l = rng.choice(LANGS)
+        tag, b = rng.choice(gens.validator_inputs(rng, l, n=rng.choice(WORD_COUNTS)))
+        return "C %s %s" % (l, hx(b))
+    concurrent_stream(res, rng, _vop, programs=3 if tier == "quick" else 20)
     return res
 
 
@@ -1256,6 +1501,12 @@ def C08(tier, seed, st):
     run_C(res, items, lambda *a: judge_common(*a))
     res.exhaustive = True
     res.notes.append("finite domain 10 x 2048 enumerated completely: every index observed through NewMnemonicByEntropy and every word validated inside a sentence")
+    # generation and validation by several goroutines at once
+    def _gop():
+        l = rng.choice(LANGS)
+        e = rng.randbytes(rng.choice(ENT_LENS))
+        return rng.choice(["E %s %s" % (l, hx(e)), "C %s %s" % (l, hx(gens.encode(l, e)))])
+    concurrent_stream(res, rng, _gop, programs=3)
     return res
 
 
@@ -1424,6 +1675,17 @@ def s_inputs(rng, tier):
             body = "a" * max(0, off - 1) + "e" + u(0x301, 0x323) + "z"
             pairs.append((body.encode(), b"pw"))
             pairs.append((b"m", body.encode()))
+    # arguments whose NFKD form is many times longer than the argument (U+FDFA x k, squared katakana words ...)
+    ex = gens.expansion_strings()
+    for x in (rng.sample(ex, 40) if q else ex):
+        pairs.append((x, b""))
+        pairs.append((b"x", x))
+    pairs.append((ex[-1], ex[-2]))
+    # marks out of canonical order with NO decomposable character anywhere in the argument
+    um = gens.unordered_mark_pairs()
+    for typed, canon in (rng.sample(um, 30) if q else um):
+        pairs.append((typed, b""))
+        pairs.append((b"abc", typed))
     # invalid UTF-8 (extra: the property speaks of valid UTF-8 only; the model covers all byte strings)
     for _ in range(10 if q else 200):
         pairs.append((rng.randbytes(rng.randrange(1, 40)), rng.randbytes(rng.randrange(0, 20))))
@@ -1510,6 +1772,12 @@ def C04(tier, seed, st):
     run_S(res, s_inputs(rng, tier), "C04")
     run_Q(res, seed_histories(rng, tier == "quick"), lambda op, r, sp: None)
     full_seeds(res, rng, tier)
+    # seed derivations made by several goroutines at once: different short and long passphrases, respelled arguments
+    _pool = [x.encode() for x in gens.nfc_like_pool()]
+    _M = gens.sentence("English", gens.indices_of_entropy(rng.randbytes(16)))
+    def _sop():
+        return "S %s %s" % (hx(rng.choice([_M, _M, rng.choice(_pool)])), hx(rng.choice([b"", bytes(rng.randrange(0x21, 0x7F) for _ in range(rng.randrange(1, 70))), rng.choice(_pool)])))
+    concurrent_stream(res, rng, _sop, programs=3 if tier == "quick" else 20, ops=3)
     return res
 
 
@@ -1548,6 +1816,22 @@ def C11(tier, seed, st):
         f1, f2 = rng.choice(("NFC", "NFD", "NFKC", "NFKD")), rng.choice(("NFC", "NFD", "NFKC", "NFKD"))
         quads.append(((m.encode(), p_.encode()), (unicodedata.normalize(f1, m).encode(), unicodedata.normalize(f2, p_).encode()), "arbitrary"))
         quads.append(((b"abc", p_.encode()), (b"abc", unicodedata.normalize(f2, p_).encode()), "passphrase-only"))
+    # only the ORDER of combining marks differs and nothing in the argument has a decomposition
+    um = gens.unordered_mark_pairs()
+    for typed, canon in (rng.sample(um, 40) if q else um):
+        quads.append(((b"abc", typed), (b"abc", canon), "marks-only-passphrase"))
+        quads.append(((typed, b"pw"), (canon, b"pw"), "marks-only-mnemonic"))
+    # long-decomposition characters against their decomposed spelling
+    for x in (rng.sample(gens.expansion_strings(), 12) if q else gens.expansion_strings()):
+        d = unicodedata.normalize("NFKD", x.decode()).encode()
+        quads.append(((x, b""), (d, b""), "expansion"))
+        quads.append(((b"m", x), (b"m", d), "expansion"))
+    # one substring of a list word as a single compatibility code point
+    for lang in LANGS:
+        t = gens.table(lang)
+        for w in rng.sample(range(2048), 12 if q else 300):
+            for cat, v in gens.compat_respellings(rng, t[w], 2):
+                quads.append(((t[w] + b" x", b""), (v + b" x", b""), "compat-" + cat))
     lines = []
     for (m1, p1), (m2, p2), tag in quads:
         lines += ["S %s %s" % (hx(m1), hx(p1)), "S %s %s" % (hx(m2), hx(p2))]
@@ -1574,6 +1858,12 @@ def C11(tier, seed, st):
     res.streams["S"] = len(lines)
     # equivalent spellings and repeats one after another in one process
     run_Q(res, seed_histories(rng, q), lambda op, r, sp: None)
+    # seed derivations made by several goroutines at once: different short and long passphrases, respelled arguments
+    _pool = [x.encode() for x in gens.nfc_like_pool()]
+    _M = gens.sentence("English", gens.indices_of_entropy(rng.randbytes(16)))
+    def _sop():
+        return "S %s %s" % (hx(rng.choice([_M, _M, rng.choice(_pool)])), hx(rng.choice([b"", bytes(rng.randrange(0x21, 0x7F) for _ in range(rng.randrange(1, 70))), rng.choice(_pool)])))
+    concurrent_stream(res, rng, _sop, programs=3 if tier == "quick" else 20, ops=3)
     return res
 
 
@@ -1630,7 +1920,8 @@ def tool_word(rng):
         return rng.choice(gens.table(rng.choice(LANGS)))
     n = rng.randrange(1, 9)
     alph = rng.choice(["abcdefghijklmnopqrstuvwxyz", "áéíóúñüçàèâêîôûëïœ", "ěščřžýůďťň", "あいうえおかがきぎくぐ", "的一是在不了有和人这",
-                       u(0x1100, 0x1161, 0x11A8, 0x1102, 0x1175), "e" + u(0x301) + "a" + u(0x308) + "n" + u(0x303) + u(0x3099)])
+                       u(0x1100, 0x1161, 0x11A8, 0x1102, 0x1175), "e" + u(0x301) + "a" + u(0x308) + "n" + u(0x303) + u(0x3099),
+                       u(0x20000, 0x20001, 0x2A700, 0x2F800, 0x30000, 0x1B002, 0x10330, 0x10400, 0x1D44E, 0x16F00, 0x1E900) + "a" + u(0x1E8D0, 0x16AF0)])
     return "".join(rng.choice(alph) for _ in range(n)).encode()
 
 
@@ -1684,6 +1975,16 @@ def C17(tier, seed, st):
             ws[rng.randrange(6)] = rng.choice([b'qu"ote', b"back\\slash", b"a<b", b"a&b", b"it's", b"c+d", b"cr\r", b"nul\x00x"])
             bad[n] = b"\n".join(ws) + b"\n"
         rounds.append(("outside-domain", bad, False))
+        # pure-letter files whose first bytes look like the signature of some other file type
+        magics = [b"BM", b"OTTO", b"ttcf", b"wOFF", b"RIFF", b"FORM", b"OggS", b"MThd", b"ID", b"PK", b"GIF", b"Rar", b"fLaC", b"xxxxftypisom", b"II", b"MM", b"MZ", b"ELF", b"caff"]
+        rng.shuffle(magics)
+        sn = {}
+        for k, n in enumerate(names):
+            ws = [tool_word(rng) for _ in range(rng.choice((0, 3, 30)))]
+            first = magics[k % len(magics)] + rng.choice([b"", b"abc", b"WAVEfmt", b"WEBPVP"])
+            sn[n] = b"\n".join([first] + ws) + b"\n"
+        sn[names[1]] = b"aaaa\n" * 6 + b"aaa\n" + b"LPxx\nzz\n"      # "LP" at byte offset 34
+        rounds.append(("signature-like", sn, True))
         prev_dir = None
         for tag, served, judged in rounds:
             rc, log, outs, d = run_tool(served, workroot, reuse_dir=prev_dir if tag == "regenerate-shorter" else None)
@@ -1746,6 +2047,71 @@ def C17(tier, seed, st):
     return res
 
 
+def run_concurrent(res, progs):
+    """progs: programs (lists of goroutines, each a list of ops; a group starting with "PRE" runs first, alone) - each in
+    a fresh process of the race-detector build, goroutines released together.  Reports data races, crashes, and any
+    call that returns something else than when run alone in a fresh process.  Returns the default-source draws."""
+    # what every op returns when run alone, in a fresh process
+    uniq = sorted(set(op for p_ in progs for g in p_ if g[0] != "PRE" for op in g if op[0] != "N"))
+    alone = dict(zip(uniq, [r.split(" BUFFERS-CHANGED")[0] for r in common.run_impl(["Q " + op for op in uniq])]))
+    outs = common.run_race(progs)
+    drawn = []   # (language, mnemonic hex, case) of every concurrent default-source NewMnemonic
+    for prog, (rows, race, rc, err) in zip(progs, outs):
+        res.evaluations += 1
+        res.nontrivial.add(json_key(prog))
+        case = "race " + " || ".join("|".join(g) for g in prog)
+        full_prog, prog = prog, [g for g in prog if g[0] != "PRE"]
+        res.count("race/goroutines=%d" % len(prog))
+        if race:
+            res.violation(stream="race", case=case[:6000], impl=race, model="", spec="no data race", why="the race detector reported a data race")
+            continue
+        if rc == -9:
+            rows2, race2, rc2, err2 = common.run_race([full_prog], timeout=600)[0]
+            if rc2 == -9:
+                res.notes.append("a race run timed out twice (inconclusive, not counted as a violation)")
+                continue
+            rows, race, rc, err = rows2, race2, rc2, err2
+        if rc != 0 or len(rows) != len(prog):
+            res.violation(stream="race", case=case[:6000], impl="rc=%s %s" % (rc, err[-800:]), model="", spec="all goroutines complete", why="the concurrent run did not complete normally (panic or crash)")
+            continue
+        bad = None
+        for g, row in zip(prog, rows):
+            for op, r in zip(g, row):
+                if op[0] == "N":
+                    n = int(op.split()[1])
+                    want = "ok words=%d" % n if n in WORD_COUNTS else "err wordlen"
+                    if r.split(" ")[:2] != want.split(" "):
+                        bad = (op, r, want)
+                    elif n in WORD_COUNTS:
+                        drawn.append((op.split()[2], r.split(" ")[2], case))
+                elif r != alone[op]:
+                    bad = (op, r, alone[op])
+            if len(row) != len(g):
+                bad = (g[0], "goroutine returned %d results for %d calls" % (len(row), len(g)), "")
+        if bad:
+            res.violation(stream="race", case=case[:6000], failing_op=bad[0], impl=bad[1], model="", spec=bad[2],
+                          why="a call returned something else than when run alone")
+    res.streams["race-processes"] = res.streams.get("race-processes", 0) + len(progs)
+    res.streams["alone"] = res.streams.get("alone", 0) + len(uniq)
+    return drawn
+
+
+def concurrent_stream(res, rng, mk_op, programs=3, goroutines=(4, 8), ops=5, pre=None):
+    """a small concurrent-use stream for the checks of single properties: `programs` fresh processes in which several
+    goroutines make the calls produced by mk_op() at the same time; every result must be what the call returns alone"""
+    ok, log = common.build_race()
+    if not ok:
+        res.corr_break(stream="race", case="-", why="implrun does not build with -race: " + log[-300:])
+        return []
+    progs = []
+    for _ in range(programs):
+        prog = [[mk_op() for _ in range(ops)] for _ in range(rng.choice(goroutines))]
+        if pre:
+            prog = [["PRE"] + pre()] + prog
+        progs.append(prog)
+    return run_concurrent(res, progs)
+
+
 # ---------------------------------------------------------------- C12
 def C12(tier, seed, st):
     res = Result("C12")
@@ -1796,49 +2162,27 @@ def C12(tier, seed, st):
     # concurrent NewMnemonic only (the default source is shared by all goroutines)
     for _ in range(4 if q else 40):
         progs.append([["N %d %s -" % (rng.choice(WORD_COUNTS), rng.choice(LANGS)) for _ in range(6)] for _ in range(rng.choice((4, 8, 16)))])
-    # what every op returns when run alone, in a fresh process
-    uniq = sorted(set(op for p_ in progs for g in p_ for op in g if op[0] != "N"))
-    alone = dict(zip(uniq, [r.split(" BUFFERS-CHANGED")[0] for r in common.run_impl(["Q " + op for op in uniq])]))
-    outs = common.run_race(progs)
-    drawn = []   # (language, mnemonic hex, case) of every concurrent default-source NewMnemonic
-    for prog, (rows, race, rc, err) in zip(progs, outs):
-        res.evaluations += 1
-        res.count("race/goroutines=%d" % len(prog))
-        res.nontrivial.add(json_key(prog))
-        case = "race " + " || ".join("|".join(g) for g in prog)
-        if race:
-            res.violation(stream="race", case=case[:6000], impl=race, model="", spec="no data race", why="the race detector reported a data race")
-            continue
-        if rc == -9:
-            rows2, race2, rc2, err2 = common.run_race([prog], timeout=600)[0]
-            if rc2 == -9:
-                res.notes.append("a race run timed out twice (inconclusive, not counted as a violation)")
-                continue
-            rows, race, rc, err = rows2, race2, rc2, err2
-        if rc != 0 or len(rows) != len(prog):
-            res.violation(stream="race", case=case[:6000], impl="rc=%s %s" % (rc, err[-800:]), model="", spec="all goroutines complete", why="the concurrent run did not complete normally (panic or crash)")
-            continue
-        bad = None
-        for g, row in zip(prog, rows):
-            for op, r in zip(g, row):
-                if op[0] == "N":
-                    n = int(op.split()[1])
-                    want = "ok words=%d" % n if n in WORD_COUNTS else "err wordlen"
-                    if r.split(" ")[:2] != want.split(" "):
-                        bad = (op, r, want)
-                    elif n in WORD_COUNTS:
-                        drawn.append((op.split()[2], r.split(" ")[2], case))
-                elif r != alone[op]:
-                    bad = (op, r, alone[op])
-            if len(row) != len(g):
-                bad = (g[0], "goroutine returned %d results for %d calls" % (len(row), len(g)), "")
-        if bad:
-            res.violation(stream="race", case=case[:6000], failing_op=bad[0], impl=bad[1], model="", spec=bad[2],
-                          why="a call returned something else than when run alone")
+    # concurrent draws AFTER failed draws (a prelude run before the goroutines start; scripted source that fails after
+    # k bytes): whatever a failed call leaves in a pool is then handed to concurrent callers
+    for _ in range(4 if q else 40):
+        pre = ["PRE"] + ["N %d %s %s" % (n_, rng.choice(LANGS), gens.script_str([(rng.randbytes(rng.randrange(0, n_)), rng.choice(gens.ERR_KINDS))]))
+                         for n_ in [rng.choice(WORD_COUNTS) for _ in range(rng.randrange(1, 4))]]
+        progs.append([pre] + [["N %d %s -" % (rng.choice(WORD_COUNTS), rng.choice(LANGS)) for _ in range(6)] for _ in range(rng.choice((4, 8, 16)))])
+    # concurrent seed derivations: same mnemonic with different short passphrases; argument pairs whose
+    # concatenation (bare, or around a delimiter) coincides although the pairs differ
+    M = gens.sentence("English", gens.indices_of_entropy(rng.randbytes(16)))
+    M15 = gens.sentence("English", gens.indices_of_entropy(rng.randbytes(20)))
+    for _ in range(3 if q else 20):
+        g = rng.choice((4, 8))
+        pws = [bytes(rng.randrange(0x21, 0x7F) for _ in range(rng.randrange(0, 50))) for _ in range(g)]
+        progs.append([["S %s %s" % (hx(M), hx(pw))] * 3 for pw in pws])
+    for delim in (b"", b" ", b"\x00", b"|", b"mnemonic", b":", b"/"):
+        A, B, C = M, b" ".join(M15.split(b" ")[:3]), b"pass"
+        x, y = "S %s %s" % (hx(A), hx(B + delim + C)), "S %s %s" % (hx(A + delim + B), hx(C))
+        progs.append([[x] * 3, [y] * 3, [x, y, x], [y, x, y]])
+    drawn = run_concurrent(res, progs)
     check_drawn(res, drawn)
     res.sample({"program": [g for g in progs[0][:2]], "goroutines": len(progs[0])})
-    res.streams["race-processes"] = len(progs)
-    res.streams["alone"] = len(uniq)
     res.notes.append("implrun built with go build -race -tags verif; every program runs in a fresh process; goroutines are released together by a barrier")
     return res
 
